@@ -88,7 +88,7 @@ def cmp_calibrate(ctx, drv, mb, q, sig, samples, previous, family="calib"):
     rq = env_json_all(mb)
     rq.update({"op": "calibrate", "recipe": fr.enc_obj(rec), "rx": fmat.rx_rows(mb, rec), "requireWeight": False, "sg": int(sgi),
                "qsvs": None if previous is None else qsv_rows(previous),
-               "samples": [[{"name": k, "data": farr_any(v)} for k, v in c.items() if v.dtype.kind in "fi" and np.all(np.isfinite(v.astype(np.float64)))] for c in conts]})
+               "samples": [[{"name": k, "data": farr_any(v)} for k, v in c.items() if v.dtype.kind in "fib" and np.all(np.isfinite(v.astype(np.float64)))] for c in conts]})
     prev_copy = copy.deepcopy(previous)
     try:
         real = q.calibrate(samples, signature_key=sig, previous_calibration_result=previous)
